@@ -1,4 +1,5 @@
 import CatiiProofs.Dict
+import CatiiProofs.IIndexBasic
 import CatiiProps.C08
 /-! `union_update` / `intersection_update` / `difference_update` are entry-wise set algebra on the row-id
 sets (C06), by the kernel theorems of C08. Core Lean only. -/
@@ -328,5 +329,79 @@ theorem intersectionUpdate_spec (i : IIndex) (other : List (Key × Rows)) (hk : 
       exact ⟨⟨rs, h1, hr⟩, himp ((hhas k).mp h2)⟩
     · rintro ⟨⟨rs, hm, hr⟩, ⟨rs', hm', hr'⟩⟩
       exact ⟨⟨rs, List.mem_filter.mpr ⟨hm, (hhas k).mpr ⟨rs', hm'⟩⟩, hr⟩, fun _ => ⟨rs', hm', hr'⟩⟩
+
+/-! ### well-formedness after a set update -/
+
+/-- a result whose listed cells all come, key by key, from well-formed sources is well-formed -/
+theorem wf_of_listed (i res : IIndex) (h : WF i) (hc : res.common = i.common) (hs : res.shape = i.shape)
+    (hk : KeysDistinct res.entries) (hsr : RowsSorted res.entries) (hne : RowsNonEmpty res.entries)
+    (src : Key → Nat → Prop)
+    (hsrc : ∀ k r, Listed res.entries k r → src k r)
+    (harity : ∀ k r, src k r → k.length = i.ndim ∧ val0 k ≠ i.common ∧ r < i.nrows ∧ k.drop 1 ∈ hiCells (i.shape.drop 1))
+    (hexcl : ∀ k1 k2 r, src k1 r → src k2 r → k1.drop 1 = k2.drop 1 → val0 k1 = val0 k2) : WF res := by
+  have hfacts : ∀ e ∈ res.entries, ∃ r ∈ e.2, src e.1 r := by
+    intro e he
+    obtain ⟨r, hr⟩ := List.exists_mem_of_ne_nil e.2 (hne e he)
+    exact ⟨r, hr, hsrc e.1 r ⟨e.2, he, hr⟩⟩
+  refine ⟨hk, ?_, ?_, ?_, hne, hsr, ?_, ?_, ?_⟩
+  · intro e he
+    obtain ⟨r, _, hs'⟩ := hfacts e he
+    show e.1.length = res.shape.length
+    rw [hs]; exact (harity e.1 r hs').1
+  · show 0 < res.shape.length
+    rw [hs]; exact h.ndimPos
+  · intro e he
+    obtain ⟨r, _, hs'⟩ := hfacts e he
+    rw [hc]; exact (harity e.1 r hs').2.1
+  · intro e he r hr
+    show r < res.shape.headD 0
+    rw [hs]; exact (harity e.1 r (hsrc e.1 r ⟨e.2, he, hr⟩)).2.2.1
+  · intro e he
+    obtain ⟨r, _, hs'⟩ := hfacts e he
+    rw [hs]; exact (harity e.1 r hs').2.2.2
+  · intro e he f hf hef r hre hrf
+    exact hexcl e.1 f.1 r (hsrc e.1 r ⟨e.2, he, hre⟩) (hsrc f.1 r ⟨f.2, hf, hrf⟩) hef
+
+theorem wf_rows (i : IIndex) (h : WF i) : RowsSorted i.entries ∧ RowsNonEmpty i.entries := ⟨h.sorted, h.nonEmpty⟩
+
+theorem listed_facts (i : IIndex) (h : WF i) (k : Key) (r : Nat) (hl : Listed i.entries k r) :
+    k.length = i.ndim ∧ val0 k ≠ i.common ∧ r < i.nrows ∧ k.drop 1 ∈ hiCells (i.shape.drop 1) := by
+  obtain ⟨rows, hm, hr⟩ := hl
+  exact ⟨h.arity _ hm, h.noCommon _ hm, h.inRange _ hm r hr, h.hiRange _ hm⟩
+
+theorem listed_excl (i : IIndex) (h : WF i) (k1 k2 : Key) (r : Nat) (h1 : Listed i.entries k1 r)
+    (h2 : Listed i.entries k2 r) (hhi : k1.drop 1 = k2.drop 1) : val0 k1 = val0 k2 := by
+  obtain ⟨rows1, hm1, hr1⟩ := h1
+  obtain ⟨rows2, hm2, hr2⟩ := h2
+  exact h.exclusive _ hm1 _ hm2 hhi r hr1 hr2
+
+/-- `difference_update` and `intersection_update` only remove rows: the result stays well-formed -/
+theorem differenceUpdate_wf (i : IIndex) (other : List (Key × Rows)) (h : WF i) (ho : RowsSorted other) :
+    ∃ res, differenceUpdate i other = .ok res ∧ WF res := by
+  obtain ⟨res, hrun, hc, hs, hk, hsr, hne, hl⟩ := differenceUpdate_spec i other h.keys h.sorted ho
+  refine ⟨res, hrun, wf_of_listed i res h hc hs hk hsr (hne h.nonEmpty) (Listed i.entries)
+    (fun k r hh => ((hl k r).mp hh).1) (listed_facts i h) (listed_excl i h)⟩
+
+theorem intersectionUpdate_wf (i : IIndex) (other : List (Key × Rows)) (h : WF i) (ho : RowsSorted other)
+    (hd : KeysDistinct other) : ∃ res, intersectionUpdate i other = .ok res ∧ WF res := by
+  obtain ⟨res, hrun, hc, hs, hk, hsr, hne, hl⟩ := intersectionUpdate_spec i other h.keys h.sorted ho hd
+  refine ⟨res, hrun, wf_of_listed i res h hc hs hk hsr (hne h.nonEmpty) (Listed i.entries)
+    (fun k r hh => ((hl k r).mp hh).1) (listed_facts i h) (listed_excl i h)⟩
+
+/-- `union_update` keeps the index well-formed when what it adds fits the shape, avoids the common value and
+assigns no cell a second value (neither against the receiver nor within the argument) -/
+theorem unionUpdate_wf (i : IIndex) (other : List (Key × Rows)) (h : WF i) (ho : RowsSorted other)
+    (hfit : ∀ k r, Listed other k r →
+      k.length = i.ndim ∧ val0 k ≠ i.common ∧ r < i.nrows ∧ k.drop 1 ∈ hiCells (i.shape.drop 1))
+    (hone : ∀ k1 k2 r, (Listed i.entries k1 r ∨ Listed other k1 r) → (Listed i.entries k2 r ∨ Listed other k2 r) →
+      k1.drop 1 = k2.drop 1 → val0 k1 = val0 k2) :
+    ∃ res, unionUpdate i other = .ok res ∧ WF res := by
+  obtain ⟨res, hrun, hc, hs, hk, hsr, hne, hl⟩ := unionUpdate_spec i other h.keys h.sorted ho
+  refine ⟨res, hrun, wf_of_listed i res h hc hs hk hsr (hne h.nonEmpty)
+    (fun k r => Listed i.entries k r ∨ Listed other k r)
+    (fun k r hh => (hl k r).mp hh) ?_ hone⟩
+  rintro k r (h1 | h1)
+  · exact listed_facts i h k r h1
+  · exact hfit k r h1
 
 end Catii.IIdx
